@@ -118,6 +118,7 @@ int main(int argc, char **argv) {
     Args a = parse_args(argc, argv);
     NMAX = br_const("BAND_NMAX"); ALPHA = br_const("BAND_ALPHA"); BETA = br_const("BAND_BETA"); GAMMA = br_const("BAND_GAMMA"); TXC = br_const("BAND_TXC");
     if (!a.replay.empty()) return replay_case(a, run);
+    zygote_start(run);   // before any code under test runs in this process
     Current::install(a.failing);
     Evidence ev;
     ev.rule = "band_update_stats + band_choose_hello_time on a real enumeration automaton with (r, begun, prior Ni) set through the bridge; oracle in 128-bit arithmetic from the statement "
